@@ -199,8 +199,13 @@ def _gen_ops(rng, cfg, depth, budget):
             ops.append({"op": "get", "mgr": mgr})
         elif r < 3.5:
             ops.append({"op": "probe", "mgr": mgr, "fn": pick_probe(rng)})
-        elif r < 4.0:
+        elif r < 3.7:
             ops.append({"op": "attr", "mgr": "be"} if "be" in cfg["mgrs"] else {"op": "get", "mgr": mgr})
+        elif r < 4.0:
+            # a child thread created here (plain, or - like asyncio.to_thread - running in a copy of the creating
+            # thread's contextvars context), which only observes and is joined before the creator continues
+            ops.append({"op": "spawn", "ctx": rng.random() < 0.5,
+                        "ops": [{"op": rng.choice(["get", "probe"]), "mgr": m, "fn": pick_probe(rng)} for m in cfg["mgrs"]]})
         else:
             if depth >= cfg.get("max_depth", 3):
                 ops.append({"op": "get", "mgr": mgr})
@@ -235,7 +240,27 @@ def gen_record(rng):
             ops.append({"op": rng.choice(["get", "probe"]), "mgr": m, "fn": pick_probe(rng)})
         threads.append({"role": "observer", "ops": ops + final_ops(cfg)})
     threads.append({"role": "fresh", "gated": True, "ops": final_ops(cfg)})
-    return {"property": PROP, "config": cfg, "threads": threads}
+    rec = {"property": PROP, "config": cfg, "threads": threads}
+    number_spawns(rec)
+    return rec
+
+
+def _walk_ops(ops):
+    for o in ops:
+        yield o
+        if o["op"] == "with":
+            yield from _walk_ops(o["body"])
+
+
+def number_spawns(rec):
+    """Every spawned child is a thread of its own for the model: give it an id after the program threads."""
+    n = len(rec["threads"])
+    for th in rec["threads"]:
+        for o in _walk_ops(th["ops"]):
+            if o["op"] == "spawn":
+                o["tid"] = n
+                n += 1
+    return n
 
 
 def make_chooser(rng, rec):
@@ -322,7 +347,8 @@ class Run:
 
     # ---- history
     def invoke(self, t, op, **kw):
-        self.sched.yield_point(("inv", op))
+        if hasattr(t, "sem"):  # spawned children run atomically inside their creator's turn
+            self.sched.yield_point(("inv", op))
         h = dict(kw)
         h.update(t=t.id, op=op, inv=self.sched.stamp(), ret=None, out=None)
         self.history.append(h)
@@ -383,6 +409,8 @@ class Run:
                     except Exception as e:
                         out = "raised:" + type(e).__name__
                     self.ret(h, out)
+            elif k == "spawn":
+                self.do_spawn(t, op)
             elif k == "set":
                 self.do_set(t, op)
             elif k == "with":
@@ -393,6 +421,53 @@ class Run:
                 raise e
             else:
                 raise HarnessError("bad op " + k)
+
+    def do_spawn(self, t, op):
+        """Create a child OS thread that observes and is joined; the creator keeps the baton meanwhile."""
+        import contextvars
+        import threading
+
+        child = type("Child", (), {})()
+        child.id = op["tid"]
+        child.probe_hits = []
+        child.local = {}
+        err = []
+
+        dirs = self.E["probe_dirs"]
+
+        def child_trace(frame, event, arg):  # records which tenalg implementation runs; never yields
+            if event == "call":
+                fn = frame.f_code.co_filename
+                for d, name in dirs.items():
+                    if d in fn:
+                        child.probe_hits.append(name)
+                        break
+            return None
+
+        def body():
+            import sys
+
+            saved_cur = self.sched.cur
+            self.sched.cur = child  # observations are attributed to the child; no pre-emption inside
+            sys.settrace(child_trace)
+            try:
+                self.run_ops(child, op["ops"], 0)
+            except BaseException as e:  # noqa
+                err.append(e)
+            finally:
+                sys.settrace(None)
+                self.sched.cur = saved_cur
+
+        target = body
+        if op.get("ctx"):
+            ctx = contextvars.copy_context()  # the creating thread's context, as asyncio.to_thread does
+            target = lambda: ctx.run(body)
+        self.sched.yield_point(("spawn",))
+        th = threading.Thread(target=target, name=f"sim-child-{child.id}")
+        th.start()
+        th.join(60)
+        if th.is_alive() or err:
+            raise HarnessError(f"spawned thread failed: {err[:1]!r}")
 
     def tag_of(self, mgr, inst):
         if mgr == "be":
@@ -506,7 +581,7 @@ class Run:
 
 def judge(run):
     """Returns dict(oracle=None|id, text, lin=[Result per mgr])."""
-    nthreads = len(run.rec["threads"])
+    nthreads = max([len(run.rec["threads"])] + [h["t"] + 1 for h in run.history])
     verdicts = []
     for seq, oracle, text in run.direct:
         verdicts.append((seq, oracle, text))
